@@ -14,6 +14,8 @@ use crate::rng::Rng;
 pub enum Kind {
     Dir,
     File(usize),
+    /// regular file with the given text (ignore files)
+    Text(String),
     /// symlink with the given (relative or absolute) target text
     Link(String),
 }
@@ -38,6 +40,7 @@ impl Tree {
                 .map(|n| match &n.kind {
                     Kind::Dir => json!({"p": n.path, "k": "dir"}),
                     Kind::File(s) => json!({"p": n.path, "k": "file", "size": s}),
+                    Kind::Text(c) => json!({"p": n.path, "k": "text", "content": c}),
                     Kind::Link(t) => json!({"p": n.path, "k": "link", "to": t}),
                 })
                 .collect(),
@@ -51,6 +54,7 @@ impl Tree {
             let kind = match n["k"].as_str().unwrap_or("file") {
                 "dir" => Kind::Dir,
                 "link" => Kind::Link(n["to"].as_str().unwrap_or("").to_string()),
+                "text" => Kind::Text(n["content"].as_str().unwrap_or("").to_string()),
                 _ => Kind::File(n["size"].as_u64().unwrap_or(0) as usize),
             };
             t.nodes.push(Node { path, kind });
@@ -74,6 +78,12 @@ impl Tree {
                         fs::create_dir_all(parent)?;
                     }
                     fs::write(&p, vec![b'x'; *size])?;
+                }
+                Kind::Text(content) => {
+                    if let Some(parent) = p.parent() {
+                        fs::create_dir_all(parent)?;
+                    }
+                    fs::write(&p, content.as_bytes())?;
                 }
                 Kind::Link(to) => {
                     if let Some(parent) = p.parent() {
